@@ -97,4 +97,17 @@ func init() {
 		Assumptions:    []string{"history 'untouched' is compared without the label fields ExecutedAt, ExecutionTime, OperatorVersion"},
 		SimTimeUnit:    "executor calls",
 	})
+	add(&simkit.Check{
+		Property: "C11",
+		Parts: []simkit.Part{
+			{Name: "execsim-c11", Fn: execsim.C11, Runs: map[string]int{"quick": 40000, "thorough": 3000000}},
+		},
+		Rule:           "one run = 2-8 operator actions (add newer file, add file with an older version, add checkpoint, make the database dirty/clean, fix, apply n with drawn exec-order / baseline / allow-dirty and optionally an injected failing statement that leaves a partial revision); after every apply the executed statements and the error class are compared with the documented decision of the reference model (model.Pending); distinct = distinct trace hash among runs that executed a statement",
+		RequiredProbes: []string{"out-of-order-file-added", "checkpoint-added", "last-partial-history", "first-run-with-checkpoint", "decision:run", "decision:no-pending", "decision:not-clean", "decision:baseline-not-found", "decision:non-linear"},
+		RequiredFaults: []string{"stmt-persistent"},
+		Real:           []string{"migrate.Executor (Pending, ExecuteN, Execute)", "migrate.MemDir incl. checkpoint handling (FilesFromLastCheckpoint, SkipCheckpointFiles)", "HashFile/Validate, statement scanner"},
+		Stub:           []string{"database (SimDriver, CheckClean from a flag)", "revision store (SimRevs)"},
+		Assumptions:    []string{"versions are fixed-width (the documented timestamp form): Atlas orders files by name and compares versions as strings", "reference model = DESIGN.md Appendix A"},
+		SimTimeUnit:    "operator actions",
+	})
 }
